@@ -243,8 +243,13 @@ def case_tags(case):
             if (w['task_defaults'] or {}).get('retry'):
                 tags.add('retry')
         pubs = {}
+        dictpub = set()
         for t in w['tasks']:
             kind = (t.get('body') or {}).get('kind')
+            for key in ('publish', 'publish_on_error'):
+                for v, e in (t.get(key) or {}).items():
+                    if _has_dict(e) or (e[0] == 'res' and kind == 'wf'):
+                        dictpub.add(v)
             if kind == 'wf':
                 tags.add('subwf')
             if kind == 'async':
@@ -284,8 +289,22 @@ def case_tags(case):
                         tags.add('guard')
                         if en['guard'][0] == 'bad':
                             tags.add('bad_expr')
+        inbound_cnt = {}
+        for t in w['tasks']:
+            for cl in ('on_success', 'on_error', 'on_complete'):
+                for en in t.get(cl) or []:
+                    inbound_cnt[en['to']] = inbound_cnt.get(en['to'], 0) + 1
+        td = w.get('task_defaults') or {}
+        for cl in ('on_success', 'on_error', 'on_complete'):
+            for en in td.get(cl) or []:
+                inbound_cnt[en['to']] = inbound_cnt.get(en['to'], 0) + 2
+        for t in w['tasks']:
+            if t.get('join') is None and inbound_cnt.get(t['name'], 0) > 1:
+                tags.add('multi_occurrence')
         if any(c > 1 for c in pubs.values()):
             tags.add('republish')
+        if any(c > 1 and v in dictpub for v, c in pubs.items()):
+            tags.add('republish_dict')
     for op in case.get('ops') or []:
         tags.add('op_' + op['op'])
     for f in case.get('faults') or []:
